@@ -35,5 +35,7 @@ SEEDED = [
     ("C09-7", "C09-LABEL"),
     ("C09-8", "C09-MEM"),
     ("C09-9", "C09-SKIP"),
+    ("C09-10", "C09-PATH"),
+    ("C09-11", "C09-SKIP"),
 ]
 MUTANTS = list(MUTANTS) + [_P("seed-" + sid, _os.path.join(_SEEDS, sid, "patch.diff"), rule) for sid, rule in SEEDED if _os.path.exists(_os.path.join(_SEEDS, sid, "patch.diff"))]
